@@ -80,7 +80,8 @@ def _spec(w: Random, i: int, rich: bool) -> dict:
     if pp:
         spec["postprocessing"] = pp
     if gen.chance(w, 0.4):
-        spec["finalizers"] = [{"type": "template", "template": "<" + tag + " {{ queries }} " + tag + ">"}]
+        ftag = "same" if gen.chance(w, 0.3) else tag  # several pipelines may carry an *equal* finalizer
+        spec["finalizers"] = [{"type": "template", "template": "<" + ftag + " {{ queries }} " + ftag + ">"}]
     return spec
 
 
